@@ -72,16 +72,16 @@ def match_pat(isa, pat, pi, toks, ti):
     if el[0] == "param":
         for tree, j in match_expr(toks, ti):
             for b, c, k in match_pat(isa, pat, pi + 1, toks, j):
-                nb = dict(b)
-                nb[el[1]] = ("expr", tree, el[2])
+                nb = {el[1]: ("expr", tree, el[2])}     # pattern order: arguments are evaluated left to right
+                nb.update(b)
                 yield nb, c, k
         return
     if el[0] == "sub":
         for ai, alt in enumerate(isa["subs"][el[2]]):
             for sb, sc, j in match_pat(isa, alt["pat"], 0, toks, ti):
                 for b, c, k in match_pat(isa, pat, pi + 1, toks, j):
-                    nb = dict(b)
-                    nb[el[1]] = ("nested", alt, sb)
+                    nb = {el[1]: ("nested", alt, sb)}
+                    nb.update(b)
                     yield nb, c + sc, k
         return
     raise ValueError(el)
